@@ -400,6 +400,7 @@ impl Check {
             })
             .collect();
         let done = Arc::new(AtomicBool::new(false));
+        self.stop.store(false, Ordering::Relaxed);
         let stop = self.stop.clone();
         let known = &self.known;
         let prop = self.prop;
